@@ -30,6 +30,8 @@ static uint32_t RM[NM + 1];
 static int in_check, n_children, n_do, n_undo, n_donull, n_undonull, n_gen, n_inserts, tt_found, stop_at_entry, child_idx_bad, child_saw_mate_move, mate_move_idx;
 static uint32_t cur_move, inserted_move; static int children_after_stop;
 static int64_t child_min, child_max; static int all_children_in_range = 1;
+#define NCV 16
+static int64_t CV[NCV], handover_value; static int ncv, handover;   /* values returned by the children searched after a real move */
 int32_t ce_idx, ce_depth, ce_nlist, ce_incheck, ce_ttfound, ce_ttflag, ce_ttdepth, ce_pvlen, ce_nchildren, ce_stop_entry, ce_isroot; uint32_t ce_list[NM + 1], ce_pv0, ce_ttmove; int64_t ce_alpha, ce_beta, ce_result, ce_ttscore;
 
 uint64_t search_node(Search *, Pos *, uint32_t, uint64_t, uint64_t, Info *);
@@ -53,6 +55,7 @@ static uint64_t child(Search *s, Info *info, int kind) {
   else __CPROVER_assume(v > -VALUE_MATE);
 #endif
   if (v < child_min) child_min = v; if (v > child_max) child_max = v;
+  if (!own && n_do > n_undo) { for (int i = 0; i < NCV; i++) if (i == ncv) CV[i] = v; ncv++; }
   if (own || IDX + 1 <= STACK_LAST) {
     uint32_t len = nondet_u32(); __CPROVER_assume(len <= 8);
     info->INFO_pv_list_length = len;
@@ -74,6 +77,7 @@ uint64_t _ZN6engine6Search17quiescence_searchERNS_8PositionEillPNS_4InfoE(Search
   int64_t v = nondet_i64(); __CPROVER_assume(v >= -VALUE_MATE && v <= VALUE_MATE);
   uint32_t len = nondet_u32(); __CPROVER_assume(len <= 8); info->INFO_pv_list_length = len;
   if (len > 0) { uint32_t k = nondet_u32(); __CPROVER_assume(k < nlist); info->INFO_pv_list.f0[0] = LIST[k % NM]; }   /* what C05-B proves for the quiescence node */
+  handover = 1; handover_value = v;
   return (uint64_t)v;
 #endif
 }
@@ -116,6 +120,9 @@ static void setup_node(int root) {
   prev->INFO_ply = IDX - 2;                                /* invariant of the stack: slot i holds ply i-1 */
   prev->INFO_current_move = nondet_u32();
   prev->INFO_counter_move = &SE.SRCH_counter_move_table.f0[0].f0[0];
+  { Info *me = &SE.SRCH_stack_info.f0[1];                   /* the node's own slot still holds the PV of an earlier sibling line or iteration */
+    uint32_t sl = nondet_u32(); __CPROVER_assume(sl <= 8); me->INFO_pv_list_length = sl;
+    for (uint32_t i = 0; i < 8; i++) me->INFO_pv_list.f0[i] = nondet_u32(); }
   SE.SRCH_check_limits_counter = nondet_i64(); __CPROVER_assume(SE.SRCH_check_limits_counter >= 1);
   SE.SRCH_max_nodes_searched = nondet_u64(); SE.SRCH_search_time = nondet_i64(); SE.SRCH_stats.f0 = nondet_u64() >> 8;
   tt_found = nondet_bool(); ce_ttfound = tt_found;
@@ -141,6 +148,15 @@ static void common_post(Info *info, int64_t alpha, int64_t beta, int64_t res, in
     if (!tt_found || ((int64_t)TT_ENTRY.f3.f0 >= -VALUE_MATE && (int64_t)TT_ENTRY.f3.f0 <= VALUE_MATE))
       PROP(res >= -VALUE_MATE && res <= VALUE_MATE, "C08 a node whose children and evaluation stay in range returns a value in [-VALUE_MATE, VALUE_MATE], never +-infinity");
     if (n_inserts > 0) PROP(in_list(inserted_move), "C05 only moves of the node are stored in the transposition table");
+    if (ce_isroot && ce_depth >= 1) PROP(info->INFO_pv_list_length > 0 && in_list(info->INFO_pv_list.f0[0]), "C09 the root's PV head (the bestmove) is one of the root moves, i.e. of the searchmoves when given, whatever the transposition table holds");
+    /* induction step for mate DISTANCES: a mate score returned by the node is one ply further than a mate score returned by one of the
+       children searched after a move of the node, unless it is a bound of the incoming window, the table's score, the node's own
+       mate (no legal moves) or the value of the quiescence search the node was handed to.  (The evaluation stays outside the mate range.) */
+    if (res >= MATE_BOUND || res <= -MATE_BOUND) {
+      int ok = (res == alpha || res == beta) || (tt_found && res == (int64_t)TT_ENTRY.f3.f0) || (nlist == 0 && res == -VALUE_MATE) || (handover && res == handover_value);
+      for (int i = 0; i < NCV; i++) if (i < ncv) { int64_t r = -CV[i]; if ((r >= MATE_BOUND || r <= -MATE_BOUND) && res == (r > 0 ? r - 1 : r + 1)) ok = 1; }
+      PROP(ncv > NCV || ok, "C08 a mate score returned by a node is exactly one ply further away than the mate score of one of its children");
+    }
   }
 }
 void h_search(void) {
